@@ -198,18 +198,22 @@ class Case:
         with open(path, 'w') as f:
             f.write('# replay case; coin-name %s\n' % self.coin)
             for n, name in self.name_of.items(): f.write('# name %d %s\n' % (n, name))
+            if getattr(self, 'path_component', None) is not None: f.write('# path %s\n' % (self.path_component or '.'))      # directory names the data directory is placed under
             f.write(self.model_text([]))
 
 def load_case(path):
-    c = None; names = {}
+    c = None; names = {}; pathc = None
     for line in open(path):
         t = line.split()
         if not t: continue
         if t[0] == '#':
             if len(t) > 2 and t[1] == 'replay' : coin = t[-1]
             if len(t) > 3 and t[1] == 'name': names[int(t[2])] = t[3]
+            if len(t) > 2 and t[1] == 'path': pathc = '' if t[2] == '.' else t[2]
             continue
-        if t[0] == 'case': c = Case(t[1], coin); c.name_of = names
+        if t[0] == 'case':
+            c = Case(t[1], coin); c.name_of = names
+            if pathc is not None: c.path_component = pathc
         elif t[0] == 'opts': c.start = int(t[1]); c.end = None if t[2] == '-' else int(t[2]); c.verify = t[3] == '1'
         elif t[0] == 'xor': c.xor = None if t[1] == '-' else (b'' if t[1] == 'empty' else bytes.fromhex(t[1]))
         elif t[0] == 'file':
